@@ -4,3 +4,4 @@ Definition k_flow_create_pdu_header : pfun :=
      pf_body := [
     SReturn (PCall "PDUHeader/version,version_minor,packet_type,packet_flags,data_rep,frag_len,auth_len,call_id" [(PInt 5); (PInt 0); (PName "packet_type"); (PBin "|" (PBin "|" (PName "flags") (PName "PacketFlags.PFC_FIRST_FRAG")) (PName "PacketFlags.PFC_LAST_FRAG")); (PCall "DataRep" []); (PInt 0); (PName "auth_len"); (PName "call_id")])
   ] |}.
+Definition k_flow_create_pdu_header_defaults : list (string * pexp) := [("flags", (PName "PacketFlags.NONE"))].
